@@ -28,6 +28,8 @@ def specs(tier):
     # not depend on the unit of psi; gridded as connected (nx_inter_sep = 0)
     S.append(gridlab.tokamak_spec("udn", options={"nx_inter_sep": 0}, fpol="linear", pressure="parab", psi_sign=0.1, extract=ex))
     S.append(gridlab.tokamak_spec("udn", options={"nx_inter_sep": 0, "psi_divide_twopi": True}, fpol="linear", pressure="parab", extract=ex))
+    # the sign options: Btxy and the scalar Bt_axis must reverse together
+    S.append(gridlab.tokamak_spec("lsn", options={"reverse_Bt": True}, fpol="linear", pressure="parab", extract=ex))
     # a grid on which no two options that could be confused coincide (see gridlab.odd_spec)
     S.append(gridlab.odd_spec("lsn", True, extract=ex))
     if tier == "thorough":
